@@ -69,6 +69,20 @@ def seeded_variants(prop):
     return out
 
 
+def keep_variants(prop):
+    """Stored behaviour-preserving refactorings (seeded_keep/): every check must stay silent on each of them."""
+    here = os.path.dirname(os.path.dirname(os.path.abspath(__file__)))
+    out = []
+    sd = os.path.join(here, "seeded_keep")
+    if not os.path.isdir(sd):
+        return out
+    for name in sorted(os.listdir(sd)):
+        pp = os.path.join(sd, name, "patch.diff")
+        if os.path.exists(pp):
+            out.append(dict(id="keep:" + name, props=[prop], kind="keep", path="@seed", old=pp, new="", note=""))
+    return out
+
+
 def _run(args):
     prop, repo, v = args
     from sa.cli import run_property
@@ -108,7 +122,7 @@ def run_corpus(prop, repo, seed, write_evidence=True):
 
     t0 = time.time()
     rc = run_property(prop, repo, "thorough", seed, write_evidence=write_evidence)
-    mine = [v for v in V if prop in v["props"]] + seeded_variants(prop)
+    mine = [v for v in V if prop in v["props"]] + seeded_variants(prop) + keep_variants(prop)
     order = list(mine)
     import random
 
